@@ -5,11 +5,15 @@
 //! SENDING end of the link.  Two exhaustive stages, both executed on the real stack:
 //!
 //!  * history search: every history of the stated depth over an alphabet of sender events (transfer
-//!    within credit / up to the limit / one beyond the limit / multi-frame / pre-settled / a flow carrying
-//!    the sender's delivery-count) and application events (recv one / recv all / accept oldest / accept
+//!    within credit / up to the limit / one beyond the limit / multi-frame / pre-settled / intact on the
+//!    wire but not decodable as the type the application asks for / a flow carrying the sender's
+//!    delivery-count) and application events (recv one / recv all / accept oldest / accept
 //!    newest / accept_all / accept through a `ReceiverDisposer` / set_credit / drain), per credit policy;
+//!    a delivery the application got only as `RecvError::MessageDecode` is disposed of through the
+//!    `DeliveryInfo` the error carries (reject / reject_all / release) by the same disposal events;
 //!  * long streams: for Auto(n) every combination of disposal discipline x sender style, a
-//!    credit-respecting sender that sends whenever it has credit must get 5n+3 messages through.
+//!    credit-respecting sender that sends whenever it has credit must get 5n+3 messages through (in two
+//!    of the sender styles every third delivery / every delivery cannot be decoded by recv()).
 //!
 //! The monitor keeps the three clauses of the statement apart (signatures start with c1 / c2 / c3):
 //!  c1  every link flow the receiver emits carries delivery-count = the value last learnt from the sender
@@ -88,6 +92,10 @@ pub enum Ev {
     TxMulti,
     /// one pre-settled delivery, sender has credit
     TxSettled,
+    /// one single-frame unsettled delivery, sender has credit; the frame is intact, the payload is not a
+    /// message recv::<Value>() can decode (recv() fails with RecvError::MessageDecode).  For clauses 1 and 2
+    /// this is a delivery like any other: the sender counted it and it used one credit.
+    TxBad,
     /// the sender sends a link flow with its current delivery-count (echo=true).  If the receiver asked
     /// to drain, the sender first advances its delivery-count over the unused credit, as the spec says.
     SFlow,
@@ -111,7 +119,7 @@ pub enum Ev {
     Drain,
 }
 
-pub const FULL: [Ev; 15] = [
+pub const FULL: [Ev; 16] = [
     Ev::TxOne,
     Ev::Recv,
     Ev::AccOld,
@@ -124,12 +132,15 @@ pub const FULL: [Ev; 15] = [
     Ev::AccDisp,
     Ev::TxMulti,
     Ev::TxSettled,
+    Ev::TxBad,
     Ev::SetCreditLo,
     Ev::SetCreditHi,
     Ev::Drain,
 ];
 /// the core of the alphabet (used for the deepest level)
 pub const CORE: [Ev; 8] = [Ev::TxOne, Ev::Recv, Ev::AccOld, Ev::TxLimit, Ev::TxOver, Ev::SFlow, Ev::RecvAll, Ev::AccAll];
+/// the core plus the undecodable delivery (deepest level of the small Auto(n), where every credit counts)
+pub const CORE_BAD: [Ev; 9] = [Ev::TxOne, Ev::Recv, Ev::AccOld, Ev::TxLimit, Ev::TxOver, Ev::SFlow, Ev::RecvAll, Ev::AccAll, Ev::TxBad];
 
 /// the core for Manual links (credit exists only after a set_credit)
 pub const CORE_MANUAL: [Ev; 9] = [Ev::SetCreditHi, Ev::TxOne, Ev::Recv, Ev::TxLimit, Ev::TxOver, Ev::SFlow, Ev::RecvAll, Ev::SetCreditLo, Ev::Drain];
@@ -156,6 +167,8 @@ struct Sent {
     flow_at_send: usize,
     frames: u8,
     settled: bool,
+    /// the payload cannot be decoded by recv::<Value>()
+    bad: bool,
     st: DState,
 }
 
@@ -205,6 +218,10 @@ pub struct Counters {
     pub sflows_with_queue: u64,
     pub stall_checks: u64,
     pub out_of_order_accepts: u64,
+    pub bad_sent: u64,
+    pub bad_handed: u64,
+    pub bad_disposed: u64,
+    pub bad_refused_over_limit: u64,
 }
 
 impl Counters {
@@ -221,6 +238,10 @@ impl Counters {
         self.sflows_with_queue += o.sflows_with_queue;
         self.stall_checks += o.stall_checks;
         self.out_of_order_accepts += o.out_of_order_accepts;
+        self.bad_sent += o.bad_sent;
+        self.bad_handed += o.bad_handed;
+        self.bad_disposed += o.bad_disposed;
+        self.bad_refused_over_limit += o.bad_refused_over_limit;
     }
     fn json(&self) -> serde_json::Value {
         json!({
@@ -236,6 +257,10 @@ impl Counters {
             "sender_flows_sent_while_deliveries_waited_in_the_link": self.sflows_with_queue,
             "auto_stall_obligations_evaluated": self.stall_checks,
             "out_of_order_accepts": self.out_of_order_accepts,
+            "undecodable_deliveries_sent": self.bad_sent,
+            "undecodable_deliveries_received_as_decode_error": self.bad_handed,
+            "undecodable_deliveries_rejected_or_released_through_the_error_info": self.bad_disposed,
+            "undecodable_deliveries_refused_as_transfer_limit_violation": self.bad_refused_over_limit,
         })
     }
 }
@@ -261,6 +286,8 @@ struct Mon {
     session_or_connection_ended: bool,
     cursor: usize,
     fails: Vec<(String, String)>,
+    /// the harness itself did not do what it meant to do (never a verdict)
+    machinery: Vec<String>,
     cnt: Counters,
 }
 
@@ -284,6 +311,7 @@ impl Mon {
             session_or_connection_ended: false,
             cursor: 0,
             fails: vec![],
+            machinery: vec![],
             cnt: Counters::default(),
         }
     }
@@ -449,41 +477,53 @@ impl Mon {
         (any, all)
     }
 
-    fn note_send(&mut self, frames: u8, settled: bool) -> usize {
+    fn note_send(&mut self, frames: u8, settled: bool, bad: bool) -> usize {
         let over = self.snd_credit() == 0;
         if over {
             self.cnt.overruns_sent += 1;
             self.over_sent = true;
+        }
+        if bad {
+            self.cnt.bad_sent += 1;
         }
         self.sent.push(Sent {
             dc_before: self.snd_dc,
             flow_at_send: self.rflows.len() - 1,
             frames,
             settled,
+            bad,
             st: DState::Queued,
         });
         self.snd_dc = self.snd_dc.wrapping_add(1);
         self.sent.len() - 1
     }
 
-    /// recv() returned delivery number `i`
+    /// recv() returned delivery number `i` - or, for a delivery whose payload cannot be decoded, recv()
+    /// took it from the link and reported it as RecvError::MessageDecode together with its DeliveryInfo.
+    /// The latter is a delivery RECEIVED (clause 1) and ACCEPTED against the credit (clause 2) like any
+    /// other: the link keeps it in its unsettled map and the application has to dispose of it; only its
+    /// content never reaches the application.
     fn on_handed(&mut self, i: usize) {
         let (any, _) = self.within(i);
+        let bad = self.sent[i].bad;
+        let what = if bad { "reported (as a decode error, with its delivery info)" } else { "returned" };
         match self.sent[i].st {
             DState::Rejected => self.fail(
                 "c2 refused-delivery-delivered-later",
-                format!("recv() returned delivery m{i} after having refused it as a transfer-limit violation"),
+                format!("recv() {what} delivery m{i} after having refused it as a transfer-limit violation"),
             ),
-            DState::Handed => self.fail("c2 delivery-returned-twice", format!("recv() returned delivery m{i} twice")),
+            DState::Handed => self.fail("c2 delivery-returned-twice", format!("recv() {what} delivery m{i} twice")),
             DState::Queued => {}
         }
         if !any && !self.poisoned {
             let s = &self.sent[i];
             let lims: Vec<String> = self.rflows[s.flow_at_send..].iter().map(|f| format!("{}+{}", f.dc, f.credit)).collect();
             self.fail(
-                "c2 overrun-delivered",
+                // an overrun has to be refused "as a transfer-limit violation": a decode error with a
+                // delivery info the application is expected to settle is not that
+                if bad { "c2 overrun-accepted-as-decode-error" } else { "c2 overrun-delivered" },
                 format!(
-                    "recv() returned delivery m{i}, which the sender sent at delivery-count {} although every flow the receiver had issued \
+                    "recv() {what} delivery m{i}, which the sender sent at delivery-count {} although every flow the receiver had issued \
                      between then and now puts the limit at or below it (delivery-count+credit of those flows: {:?})",
                     s.dc_before, lims
                 ),
@@ -491,6 +531,10 @@ impl Mon {
         }
         self.sent[i].st = DState::Handed;
         self.handed += 1;
+        if bad {
+            self.cnt.bad_handed += 1;
+            return;
+        }
         self.cnt.handed += 1;
         if self.sent[i].frames > 1 {
             self.cnt.multi_handed += 1;
@@ -516,6 +560,10 @@ impl Mon {
                     s.dc_before, lims
                 ),
             );
+        }
+        if self.sent[i].bad && limit_err {
+            // (possible only after the credit was lowered while the delivery waited in the link)
+            self.cnt.bad_refused_over_limit += 1;
         }
         if !any {
             self.cnt.overruns_refused += 1;
@@ -555,6 +603,20 @@ struct Harness {
 fn payload(seq: usize) -> Vec<u8> {
     let m = Message::builder().value(format!("m{seq}")).build();
     serde_amqp::to_vec(&Serializable(m)).expect("encode message")
+}
+
+/// A payload that travels in an intact transfer frame but is not a message recv::<Value>() can decode.
+/// Three shapes, by sequence number:
+///  0: an amqp-value section holding a str8 that announces 16 bytes and has 3;
+///  1: an amqp-value section whose value starts with a byte that is no AMQP format code (0x3f);
+///  2: bytes that are no AMQP value at all (no section descriptor).
+/// The delivery is identified by its delivery-tag ("t<seq>") which the decode error reports.
+fn bad_payload(seq: usize) -> Vec<u8> {
+    match seq % 3 {
+        0 => vec![0x00, 0x53, 0x77, 0xa1, 0x10, b'b', b'a', b'd'],
+        1 => vec![0x00, 0x53, 0x77, 0x3f, 0x01, 0x02],
+        _ => vec![0xff, 0xfe, 0xfd, 0xfc],
+    }
 }
 
 const H: Duration = Duration::from_secs(5);
@@ -767,8 +829,13 @@ impl Harness {
 
     /// the sender puts one delivery on the wire (in `frames` transfer frames)
     fn send_delivery(&mut self, frames: u8, settled: bool) -> usize {
-        let seq = self.mon.note_send(frames, settled);
-        let body = payload(seq);
+        self.send_delivery_x(frames, settled, false)
+    }
+
+    /// `bad`: the payload is one recv::<Value>() cannot decode
+    fn send_delivery_x(&mut self, frames: u8, settled: bool, bad: bool) -> usize {
+        let seq = self.mon.note_send(frames, settled, bad);
+        let body = if bad { bad_payload(seq) } else { payload(seq) };
         let id = self.next_delivery_id;
         self.next_delivery_id = self.next_delivery_id.wrapping_add(1);
         let n = frames as usize;
@@ -839,6 +906,13 @@ impl Harness {
                     _ => None,
                 };
                 match seq {
+                    Some(i) if i < self.mon.sent.len() && self.mon.sent[i].bad => {
+                        // machinery, not a verdict: the harness meant this payload to be undecodable
+                        self.note(format!("    recv() -> Ok(m{i}) although the payload was meant to be undecodable"));
+                        self.mon.machinery.push(format!("recv::<Value>() decoded the payload of m{i}, which the harness built to be undecodable"));
+                        self.mon.on_handed(i);
+                        self.undisposed.push((i, DeliveryInfo::from(&d)));
+                    }
                     Some(i) if i < self.mon.sent.len() => {
                         self.note(format!("    recv() -> Ok(m{i})"));
                         self.mon.on_handed(i);
@@ -848,6 +922,31 @@ impl Harness {
                         let b = format!("{:?}", d.body());
                         self.note(format!("    recv() -> Ok(unknown body {b})"));
                         self.mon.fail("c2 unknown-delivery-returned", format!("recv() returned a delivery the sender never sent: {b}"));
+                    }
+                }
+                true
+            }
+            Some(Err(RecvError::MessageDecode(err))) => {
+                // The frame was fine, the payload is not a message of the requested type.  The error names
+                // the delivery (id and tag); the link holds it as unsettled until the application
+                // disposes of it through `err.info`.
+                let tag = String::from_utf8_lossy(err.info.delivery_tag()).to_string();
+                let seq = tag.strip_prefix('t').and_then(|x| x.parse::<usize>().ok()).filter(|i| *i < self.mon.sent.len());
+                self.note(format!("    recv() -> Err(MessageDecode {{ delivery-id {}, tag {tag}, source: {} }})", err.info.delivery_id(), err.source));
+                match seq {
+                    Some(i) if self.mon.sent[i].bad => {
+                        self.mon.on_handed(i);
+                        self.undisposed.push((i, err.info.clone()));
+                    }
+                    _ => {
+                        // a decodable delivery (or none the sender sent) reported as undecodable
+                        let e = RecvError::MessageDecode(err);
+                        settle(&mut self.peer, 2).await;
+                        self.mon.absorb(&self.peer.trace, Cause::Spontaneous);
+                        match head {
+                            Some(i) => self.mon.on_refused(i, &e),
+                            None => self.mon.poisoned = true,
+                        }
                     }
                 }
                 true
@@ -884,14 +983,31 @@ impl Harness {
     }
 
     async fn accept_infos(&mut self, idx: Vec<usize>, how: &str) {
-        let infos: Vec<DeliveryInfo> = idx.iter().map(|i| self.undisposed[*i].1.clone()).collect();
-        let names: Vec<String> = idx.iter().map(|i| format!("m{}", self.undisposed[*i].0)).collect();
-        let r = match how {
-            "all" => drive(&mut self.peer, self.rx.accept_all(infos), H).await.map(|r| r.map_err(|e| e.to_string())),
-            "disposer" => drive(&mut self.peer, self.disp.accept(infos[0].clone()), H).await.map(|r| r.map_err(|e| e.to_string())),
-            _ => drive(&mut self.peer, self.rx.accept(infos[0].clone()), H).await.map(|r| r.map_err(|e| e.to_string())),
-        };
-        self.note(format!("    accept[{how}]({}) -> {:?}", names.join(","), r));
+        // A delivery the application holds only as a decode error (no content) is not accepted: it is
+        // rejected - or released where that is all the API offers (ReceiverDisposer) - through the
+        // DeliveryInfo the error carried.  For the credit bookkeeping that is a disposal like any other.
+        let is_bad = |h: &Harness, i: usize| h.mon.sent[h.undisposed[i].0].bad;
+        let good: Vec<usize> = idx.iter().copied().filter(|i| !is_bad(self, *i)).collect();
+        let bad: Vec<usize> = idx.iter().copied().filter(|i| is_bad(self, *i)).collect();
+        self.mon.cnt.bad_disposed += bad.len() as u64;
+        for (part, undecodable) in [(good, false), (bad, true)] {
+            if part.is_empty() {
+                continue;
+            }
+            let infos: Vec<DeliveryInfo> = part.iter().map(|i| self.undisposed[*i].1.clone()).collect();
+            let names: Vec<String> = part.iter().map(|i| format!("m{}", self.undisposed[*i].0)).collect();
+            let (verb, r) = match (how, undecodable) {
+                ("all", false) => ("accept_all", drive(&mut self.peer, self.rx.accept_all(infos), H).await.map(|r| r.map_err(|e| e.to_string()))),
+                ("all", true) => ("reject_all", drive(&mut self.peer, self.rx.reject_all(infos, None), H).await.map(|r| r.map_err(|e| e.to_string()))),
+                ("disposer", false) => ("disposer.accept", drive(&mut self.peer, self.disp.accept(infos[0].clone()), H).await.map(|r| r.map_err(|e| e.to_string()))),
+                ("disposer", true) => ("disposer.release", drive(&mut self.peer, self.disp.release(infos[0].clone()), H).await.map(|r| r.map_err(|e| e.to_string()))),
+                (_, false) => ("accept", drive(&mut self.peer, self.rx.accept(infos[0].clone()), H).await.map(|r| r.map_err(|e| e.to_string()))),
+                // alternate between the two outcomes the Receiver offers for a delivery without content
+                (_, true) if self.undisposed[part[0]].0 % 2 == 0 => ("reject", drive(&mut self.peer, self.rx.reject(infos[0].clone(), None), H).await.map(|r| r.map_err(|e| e.to_string()))),
+                (_, true) => ("release", drive(&mut self.peer, self.rx.release(infos[0].clone()), H).await.map(|r| r.map_err(|e| e.to_string()))),
+            };
+            self.note(format!("    {verb}[{how}]({}) -> {:?}", names.join(","), r));
+        }
         let mut idx = idx;
         idx.sort();
         for i in idx.into_iter().rev() {
@@ -907,7 +1023,7 @@ impl Harness {
         let queued = self.mon.queued();
         let und = self.undisposed.len();
         match ev {
-            Ev::TxOne | Ev::TxMulti | Ev::TxSettled => credit >= 1,
+            Ev::TxOne | Ev::TxMulti | Ev::TxSettled | Ev::TxBad => credit >= 1,
             Ev::TxLimit => credit >= 2,
             Ev::TxOver => credit == 0,
             Ev::SFlow => true,
@@ -946,6 +1062,10 @@ impl Harness {
             }
             Ev::TxSettled => {
                 self.send_delivery(1, true);
+                self.quiesce(Cause::Spontaneous).await;
+            }
+            Ev::TxBad => {
+                self.send_delivery_x(1, false, true);
                 self.quiesce(Cause::Spontaneous).await;
             }
             Ev::SFlow => {
@@ -1050,7 +1170,13 @@ impl Harness {
             last.drain,
             self.rx.credit(),
             self.mon.rflows.len(),
-            (self.mon.snd_dc.wrapping_sub(self.cfg.idc), self.mon.base_val.wrapping_sub(self.cfg.idc)),
+            (
+                self.mon.snd_dc.wrapping_sub(self.cfg.idc),
+                self.mon.base_val.wrapping_sub(self.cfg.idc),
+                // undecodable deliveries waiting in the link / held by the application as a decode error
+                self.mon.sent.iter().filter(|s| s.bad && s.st == DState::Queued).count(),
+                self.undisposed.iter().filter(|(i, _)| self.mon.sent[*i].bad).count(),
+            ),
         ))
     }
 }
@@ -1089,6 +1215,9 @@ pub async fn scenario(cfg: Cfg, events: Vec<Ev>) -> Obs {
         obs.executed = i + 1;
         obs.state_keys.push(h.state_key());
     }
+    if let Some(m) = h.mon.machinery.first() {
+        obs.setup_error = Some(format!("{m} (events {:?})", events));
+    }
     obs.fails = std::mem::take(&mut h.mon.fails);
     obs.fails.sort();
     obs.fails.dedup_by(|a, b| a.0 == b.0);
@@ -1113,7 +1242,7 @@ fn run_history(cfg: Cfg, evs: Vec<Ev>) -> (HistOut, Counters) {
         Some(o) => {
             out.executed = o.executed;
             if let Some(e) = o.setup_error {
-                out.machinery = Some(format!("{ctxs}: cannot reach the start state: {e}"));
+                out.machinery = Some(format!("{ctxs}: harness problem (start state not reached / payload not as intended): {e}"));
             }
             out.fails = o.fails.into_iter().map(|(s, d)| (s, format!("{ctxs}: {d}"))).collect();
             out.state_keys = o.state_keys;
@@ -1176,8 +1305,21 @@ pub enum SenderStyle {
     BurstSettled,
     /// like Burst, every delivery in three frames
     BurstMulti,
+    /// like Burst; every third delivery (the 2nd, 5th, ...) cannot be decoded by recv::<Value>(): the
+    /// application gets a decode error and rejects / releases the delivery through the error's info
+    BurstThirdBad,
+    /// like OneByOne; no delivery can be decoded
+    OneByOneAllBad,
 }
-pub const STYLES: [SenderStyle; 5] = [SenderStyle::Burst, SenderStyle::OneByOne, SenderStyle::BurstWithFlows, SenderStyle::BurstSettled, SenderStyle::BurstMulti];
+pub const STYLES: [SenderStyle; 7] = [
+    SenderStyle::Burst,
+    SenderStyle::OneByOne,
+    SenderStyle::BurstWithFlows,
+    SenderStyle::BurstSettled,
+    SenderStyle::BurstMulti,
+    SenderStyle::BurstThirdBad,
+    SenderStyle::OneByOneAllBad,
+];
 
 #[derive(Debug, Clone, Default)]
 pub struct StreamObs {
@@ -1233,14 +1375,19 @@ pub async fn stream(cfg: Cfg, disp: Disp, style: SenderStyle, total: usize) -> S
         let remaining = total - h.mon.sent.len();
         let credit = h.mon.snd_credit() as usize;
         let k = match style {
-            SenderStyle::OneByOne => credit.min(1),
+            SenderStyle::OneByOne | SenderStyle::OneByOneAllBad => credit.min(1),
             _ => credit,
         }
         .min(remaining);
         if k > 0 {
             h.note(format!("  [sender] credit={credit} sends {k}"));
             for _ in 0..k {
-                h.send_delivery(frames, settled);
+                let bad = match style {
+                    SenderStyle::BurstThirdBad => h.mon.sent.len() % 3 == 1,
+                    SenderStyle::OneByOneAllBad => true,
+                    _ => false,
+                };
+                h.send_delivery_x(frames, settled, bad);
             }
             if style == SenderStyle::BurstWithFlows {
                 h.send_sender_flow(false);
@@ -1261,7 +1408,7 @@ pub async fn stream(cfg: Cfg, disp: Disp, style: SenderStyle, total: usize) -> S
             if h.undisposed.len() >= batch {
                 dispose(&mut h, disp).await;
             }
-            if style == SenderStyle::OneByOne {
+            if matches!(style, SenderStyle::OneByOne | SenderStyle::OneByOneAllBad) {
                 break;
             }
         }
@@ -1299,6 +1446,9 @@ pub async fn stream(cfg: Cfg, disp: Disp, style: SenderStyle, total: usize) -> S
             );
             break;
         }
+    }
+    if let Some(m) = h.mon.machinery.first() {
+        o.setup_error = Some(m.clone());
     }
     o.delivered = h.mon.handed;
     o.rounds = rounds;
@@ -1358,7 +1508,7 @@ fn run_stream(cfg: Cfg, disp: Disp, style: SenderStyle, total: usize) -> (Stream
     let o = match ex.out {
         Some(mut o) => {
             if let Some(e) = o.setup_error.take() {
-                mach = Some(format!("{ctxs}: cannot reach the start state: {e}"));
+                mach = Some(format!("{ctxs}: harness problem (start state not reached / payload not as intended): {e}"));
             }
             for f in o.fails.iter_mut() {
                 f.1 = format!("{ctxs}: {}", f.1);
@@ -1405,7 +1555,15 @@ fn plans(quick: bool) -> Vec<Plan> {
     for p in pols {
         let deep = matches!(p, Policy::Auto(1) | Policy::Auto(2));
         let manual = p == Policy::Manual;
-        let (core, core_name): (&'static [Ev], &'static str) = if manual { (&CORE_MANUAL, "manual-core") } else { (&CORE, "core") };
+        // Auto(1..3): the core alphabet includes the undecodable delivery; Auto(10) and Manual keep the
+        // original cores (their undecodable deliveries are in the full alphabet)
+        let (core, core_name): (&'static [Ev], &'static str) = if manual {
+            (&CORE_MANUAL, "manual-core")
+        } else if matches!(p, Policy::Auto(1) | Policy::Auto(2) | Policy::Auto(3)) {
+            (&CORE_BAD, "core+undecodable")
+        } else {
+            (&CORE, "core")
+        };
         // client side, ordinary initial delivery-count
         let cfg = Cfg { side: Side::Client, policy: p, idc: 5 };
         if quick {
@@ -1501,12 +1659,16 @@ pub fn run(ctx: &Ctx) -> Outcome {
         let cfg = pl.cfg;
         let alpha = pl.alphabet;
         let local = std::sync::Mutex::new(Counters::default());
+        let t_plan = Instant::now();
         let st = search(alpha.len(), pl.depth, ctx.threads, deadline, |h| {
             let (o, c) = run_history(cfg, h.iter().map(|i| alpha[*i]).collect());
             local.lock().unwrap().add(&c);
             o
         });
         cnt.add(&local.into_inner().unwrap());
+        if std::env::var_os("C09_TIMES").is_some() {
+            eprintln!("C09 plan {:?}/{}/idc={:#x} {} depth {}: {} executions in {:.1}s", cfg.side, cfg.policy.name(), cfg.idc, pl.alphabet_name, pl.depth, st.executions, t_plan.elapsed().as_secs_f64());
+        }
         executions += st.executions;
         events += st.events_executed;
         states += st.distinct_states;
@@ -1567,7 +1729,7 @@ pub fn run(ctx: &Ctx) -> Outcome {
     out.set(
         "bound",
         format!(
-            "long streams: Auto(n) n in {{1,2,3,10}} x {} disposal disciplines x {} sender styles x initial delivery-count {{5, 2^32-4}} (client) / {{5}} (listener), 5n+3 deliveries each; \
+            "long streams: Auto(n) n in {{1,2,3,6,10}} x {} disposal disciplines x {} sender styles x initial delivery-count {{5, 2^32-4}} (client) / {{5}} (listener), 5n+3 deliveries each; \
              histories: {}",
             DISPS.len(),
             STYLES.len(),
@@ -1584,6 +1746,7 @@ pub fn run(ctx: &Ctx) -> Outcome {
     out.assume("'received since' (clause 1) passes for any count between 'handed to the application by recv()' and 'arrived on the link': sender's delivery-count minus the deliveries still waiting in the link <= reported delivery-count <= sender's delivery-count");
     out.assume("'rejecting an overrun as a transfer-limit violation' (clause 2) passes if recv() returns RecvError::TransferLimitExceeded or a detach names amqp:link:transfer-limit-exceeded; a delivery counts as an overrun only if it is outside the limit of every flow issued between its sending and its recv()");
     out.assume("clause 3 is demanded only of Auto(n), only towards a sender that never exceeded its credit, and only once the application has received everything that arrived and disposed of everything it received");
+    out.assume("a delivery that arrives intact but cannot be decoded by recv::<Value>() (RecvError::MessageDecode carrying its DeliveryInfo) is a delivery received and a credit used like any other (clauses 1 and 2); the application has disposed of it (clause 3) once it has rejected or released it through that DeliveryInfo");
     out.assume("the listener's LinkAcceptor has no public credit-mode setting: the accepted receiver (Auto(200)) is brought to the policy under test with set_credit_mode / set_credit before the history starts");
     out
 }
